@@ -50,6 +50,15 @@ Fixpoint read_str (term : byte) (w : bytes) : option (bytes * bytes) :=
                   end
               | _ => None
               end
+            else if beqb e x78 then                       (* \xHH: one byte *)
+              match r1 with
+              | h1 :: h2 :: r2 =>
+                  match hexv h1, hexv h2 with
+                  | Some a, Some b' => push [z2b (a * 16 + b')] (read_str term r2)
+                  | _, _ => None
+                  end
+              | _ => None
+              end
             else match simple_esc e with
                  | Some c => push [c] (read_str term r1)
                  | None => None
